@@ -632,7 +632,13 @@ fn gen_and_record<T: Sc>(mode: &str, count: usize, rng: &mut StdRng) -> Vec<RunO
     match mode {
         "c04" => {
             for i in 0..count {
-                let rs = if i % 3 == 2 { exp_run::<T>(i, false, rng) } else { poly_run::<T>(i, rng) };
+                let mut rs = if i % 3 == 2 { exp_run::<T>(i, false, rng) } else { poly_run::<T>(i, rng) };
+                if i % 23 == 5 {
+                    // observations that the model reproduces exactly (all zero): the residuals are
+                    // literally zero and the optimizer stops with ResidualsZero at the start
+                    rs.y = DMatrix::from_element(rs.y.nrows(), rs.y.ncols(), T::zero());
+                    rs.label = format!("{} zero-observations", rs.label);
+                }
                 outs.push(record_run(&rs));
             }
         }
